@@ -647,6 +647,18 @@ func (cs *ContractSet) Load(path string, commentOnly bool) error {
 			if curFn == nil || len(f) != 2 {
 				return fail(l, "aftercall callee lhs = expr (inside func)")
 			}
+			if strings.HasPrefix(strings.TrimSpace(f[1]), "use ") {
+				// aftercall callee use lemma(args): lemma instance right after the call (`result` = its first result)
+				e, err := ParseSpec(strings.TrimSpace(strings.TrimSpace(f[1])[4:]))
+				if err != nil {
+					return fail(l, "%v", err)
+				}
+				if curFn.AfterCall == nil {
+					curFn.AfterCall = map[string][]GhostUpdate{}
+				}
+				curFn.AfterCall[f[0]] = append(curFn.AfterCall[f[0]], GhostUpdate{Name: "use", E: e, Text: rest})
+				break
+			}
 			k := strings.Index(f[1], "=")
 			if k < 0 {
 				return fail(l, "aftercall callee lhs = expr")
